@@ -217,14 +217,17 @@ class Motor(Base):
 class Mon(Base):
     """Subscribable + Readable signal"""
 
-    def __init__(self, name, rec, **kw):
+    def __init__(self, name, rec, notify=False, **kw):
         super().__init__(name, rec, **kw)
         self.value = 0
         self.subs = []
+        self.notify = notify            # ophyd-async style: the callback is called with the current value on subscribe
 
     def subscribe(self, function, **kw):
         self._log("subscribe")
         self.subs.append(function)
+        if self.notify:
+            function({self.name: {"value": self.value, "timestamp": 0.0}})
 
     def clear_sub(self, function):
         self._log("clear_sub")
